@@ -408,6 +408,17 @@ def run(ctx):
             if not ok:
                 disagreements += 1
             ctx.check(ok, "dict", "%s|%s" % (cls, key), ctx.loc(f), "key \"%s\" -> %s" % (key, got), "key \"%s\" is bound to %s (expected %s)" % (key, got, want))
+        # the dictionary handed back is THIS one on every path: a single return, reached only through the literal and every
+        # family extension, each unconditional (an early `return HashMap::new()` hands out a dictionary without the documented keys)
+        live_ = q.cfg.reach_from(0)
+        rets_ = [rb for rb in q.body.return_blocks() if rb in live_]
+        sites_ = [fr[0]] + exts
+        complete = len(rets_) == 1 and all(q.body.dominates(c_.b, rets_[0]) for c_ in sites_) and not any(
+            [a for a in c_.guards if not (a[0] == "variant" and a[1][0] == "call" and a[1][4] == "next")] for c_ in sites_)
+        if not complete:
+            disagreements += 1
+        ctx.check(complete, "dict", cls + "|every-path", ctx.loc(f), "every path returns the dictionary built from the literal and all family extensions (no early or conditional return)",
+                  "%s.get_market_data can return without the documented entries: %d return sites; a key insertion is conditional or bypassed" % (cls, len(rets_)))
         n_ext = len(exts)
         ctx.check(n_ext == len(templ) == 4, "dict", cls + "|extends", ctx.loc(f), "all %d per-level families are added to the dictionary" % n_ext, "%d families built, %d added" % (len(templ), n_ext))
         samples.append({"dict": cls, "keys": sorted(k for k in pairs if k), "templates": sorted(k for k in templ if k)})
